@@ -6,7 +6,6 @@ FUN = ['FIX8::Session::process', 'Session::enforce', 'Session::sequence_check', 
        'Session::handle_resend_request (no persister)', 'Session::handle_logout', 'Session::handle_sequence_reset', 'Session::handle_outbound_reject', 'Session::stop',
        'Session::do_state_change', 'catch clauses of Session::process (f8Exception/force_logoff, std::exception)', 'SessionID::same_sender_comp_id/same_target_comp_id',
        'fast_atoi<unsigned>', 'exception constructors InvalidMsgSequence/MsgSequenceTooLow/BadSendingTime/BadCompidId/InvalidMessage/InvalidVersion/MissingMandatoryField/BadCheckSum']
-US = sessin.US + ['digits_value.0:8', 'raw_seq.0:8', 'str_eq.0:3', 'main.0:3', 'main.1:8', 'main.2:3', 'main.3:6']
 
 def run(ctx):
     kf = known_findings('C19'); defs = kf_defines(kf)
@@ -14,7 +13,7 @@ def run(ctx):
     ctx.assumptions += sessin.ASSUME
     common = dict(functions=FUN, stubs=sessin.STUBS)
     for tlen in (1, 2):
-        ctx.add(Harness('C19_step_t%d' % tlen, VERIF + '/harness/C19_step.c', defines=defs + ['TLEN=%d' % tlen, 'VF_MAXCOPY=16'], unwind=4, unwindset=US, timeout=900, mem_gb=12,
+        ctx.add(Harness('C19_step_t%d' % tlen, VERIF + '/harness/C19_step.c', defines=defs + ['TLEN=%d' % tlen, 'VF_MAXCOPY=40'], unwind=12, unwindset=sessin.US, timeout=900, mem_gb=12,
                         bounds='one process() step; pre-state: any established state except the transient st_logon_received, expected/next-send in 1..9999999, enforce_compids/silent_disconnect/reliable/active arbitrary, '
                                'own and inbound CompIDs 1-2 arbitrary bytes; message: type %s, MsgSeqNum 0..9999999 (7 digits through the real scan + fast_atoi), PossDupFlag absent/N/Y, '
                                'SendingTime/OrigSendingTime arbitrary, NewSeqNo/BeginSeqNo/EndSeqNo arbitrary, decoding outcome in {ok, null, 5 failure kinds}' %
